@@ -43,7 +43,7 @@ class C06(Prop):
 
     def gen(self, tier, rng):
         maxlen = 60 if tier == "quick" else 300
-        reps = 14 if tier == "quick" else 120
+        reps = 14 if tier == "quick" else 400
         for rep in range(reps):
             for et in FLOATS + INTS:
                 nd = rng.range(1, 3)
